@@ -20,10 +20,10 @@ LEVEL = "fault_enumeration"
 RULE = ("workloads W1 cold first call, W2 warm call + miss, W3 call after the function's source changed, W4 "
         "cache_validation_callback invalidation (expired and still valid), W5 call_and_shelve + clear of a shelved result, "
         "W6 compressed store, W7 reduce_size, W8 clear of a function and of the whole store, W9 results spanning several "
-        "pages, W10 func_code.py longer than a page, W11/W12 source change with six old entries (the function directory is wiped file by file, in two different directory orders); a case is (workload, crash point): SIGKILL before the k-th mutating "
+        "pages, W10 func_code.py longer than a page, W13 the same with non-ASCII text straddling the page boundary, W11/W12 source change with six old entries (the function directory is wiped file by file, in two different directory orders); a case is (workload, crash point): SIGKILL before the k-th mutating "
         "file-system call under the cache directory for every k, after the last one, and after each page-boundary prefix "
-        "of every write crossing a 4096-byte file offset; each crashed directory is then recovered three times in fresh "
-        "processes (plain Memory, with expires_after(days=1), and with a user-defined callback reading metadata['duration'] / ['time']); in the thorough tier a third of them are recovered by a process that is itself killed at every second of its own mutating calls, and recovered again; distinct_nontrivial counts distinct (workload, crash "
+        "of every write crossing a 4096-byte file offset; each crashed directory is then recovered four times in fresh "
+        "processes (plain Memory, with expires_after(days=1), with a user-defined callback reading metadata['duration'] / ['time'], and through call_and_shelve(x).get() with check_call_in_cache compared against what the call then does); in the thorough tier a third of them are recovered by a process that is itself killed at every second of its own mutating calls, and recovered again; distinct_nontrivial counts distinct (workload, crash "
         "point, crash mode) whose process was really killed by the shim")
 ASSUMPTIONS = [
     "crash model: process death on a local file system - directory operations atomic, torn writes at page granularity",
@@ -33,11 +33,11 @@ ASSUMPTIONS = [
 ]
 EXHAUSTIVE = {"quick": True, "thorough": True}
 SHARDS = {"quick": 12, "thorough": 14}
-FLOORS = {"quick": {"crash_points": 250, "killed_by_shim": 250, "recoveries": 750, "torn_write_points": 15},
+FLOORS = {"quick": {"crash_points": 250, "killed_by_shim": 250, "recoveries": 1000, "torn_write_points": 15},
           "thorough": {"crash_points": 250, "killed_by_shim": 250, "recoveries": 500, "torn_write_points": 20, "strace_crosschecks": 10, "second_order_crash_points": 300}}
 
 QUICK_W = ["W1", "W3", "W4", "W6", "W9"]
-ALL_W = ["W1", "W2", "W3", "W4", "W5", "W6", "W7", "W8", "W9", "W10", "W11", "W12"]
+ALL_W = ["W1", "W2", "W3", "W4", "W5", "W6", "W7", "W8", "W9", "W10", "W11", "W12", "W13"]
 PARTS = 4
 WL = os.path.join(harness.VERIF, "checks", "c05_workload.py")
 
@@ -58,9 +58,17 @@ def setup(tier):
 def write_funcs(scratch, w, version):
     pad = 50000 if w == "W9" else 300
     doc = ('"""' + "long docstring " * 400 + '"""') if w == "W10" else '"""cached function"""'
-    src = (f"PAD = {pad}\n\n\ndef make(tag, x):\n    return [\"res\", tag, x, \"p\" * PAD]\n\n\n"
-           f"def f(x):\n    {doc}\n    return make(\"{version}\", x)\n")
-    with open(os.path.join(scratch, "c05funcs.py"), "w") as f:
+    head = f"PAD = {pad}\n\n\ndef make(tag, x):\n    return [\"res\", tag, x, \"p\" * PAD]\n\n\n"
+    if w == "W13":
+        # a source text longer than a page whose non-ASCII documentation straddles the page boundary: the stored copy
+        # (func_code.py = '# first line: N' + the function's text) torn at 4096 bytes ends inside a multi-byte character
+        for shift in range(4):
+            doc = '"""' + " " * shift + "說明文字 " * 500 + '"""'
+            stored = (f"# first line: 9\ndef f(x):\n    {doc}\n").encode("utf8")
+            if stored[4096] & 0xC0 == 0x80:
+                break
+    src = head + f"def f(x):\n    {doc}\n    return make(\"{version}\", x)\n"
+    with open(os.path.join(scratch, "c05funcs.py"), "w", encoding="utf8") as f:
         f.write(src)
 
 
@@ -168,7 +176,7 @@ def run_case(case, ctx):
                 ctx.count("torn_write_points")
             ctx.sig((w, k, mode))
             ctx.add("crash_ops", f"{ev['op']}:{path_class(ev['path'])}:{mode.split(':')[0]}")
-            for phase in ("recover", "recover_cb", "recover_udcb"):
+            for phase in ("recover", "recover_cb", "recover_udcb", "recover_shelve"):
                 d2 = d + "." + phase
                 clone(d, d2)
                 rr = run_phase(w, phase, d2)
@@ -182,7 +190,7 @@ def run_case(case, ctx):
                                       f"after {desc}: files visible under their final name are not complete results: {res['bad_final_files'][:2]}", desc)
                     if res["error"]:
                         e = res["error"]
-                        key = f"{e['type']}@{e['where'][-1] if e['where'] else '?'}" + {"recover_cb": "+validation-callback", "recover_udcb": "+user-validation-callback"}.get(phase, "")
+                        key = f"{e['type']}@{e['where'][-1] if e['where'] else '?'}" + {"recover_cb": "+validation-callback", "recover_udcb": "+user-validation-callback", "recover_shelve": "+shelved-references"}.get(phase, "")
                         ctx.violation(key, f"fresh process after a kill {mode} {ev['op']} of {ev['path'].rsplit('/', 2)[-1]} ({w}, call #{k}): "
                                            f"cached call raised {e['type']}: {e['msg']} at {e['where']}", dict(desc, phase=phase, error=e))
                 shutil.rmtree(d2, ignore_errors=True)
